@@ -27,6 +27,11 @@ type FakeRelay struct {
 	counts  map[string]int
 	Latency time.Duration
 	FailDel int  // the next FailDel DelCipherBox calls fail with Unavailable
+	// HoldKey: sends into this mailbox block (back pressure) until the stream's context ends
+	// or the hold is lifted; held counts the sends currently blocked
+	HoldKey string
+	held    int
+	unhold  chan struct{}
 	down    bool // outage: every RPC and every operation on an open stream, CloseSend included, fails
 }
 
@@ -43,6 +48,24 @@ func (r *FakeRelay) SetDown(d bool) {
 		}
 	}
 	r.mu.Unlock()
+}
+
+// Hold makes sends into mailbox k block; Hold("") lifts the hold and releases the blocked sends.
+func (r *FakeRelay) Hold(k string) {
+	r.mu.Lock()
+	r.HoldKey = k
+	if k == "" && r.unhold != nil {
+		close(r.unhold)
+		r.unhold = nil
+	}
+	r.mu.Unlock()
+}
+
+// Held reports how many sends are blocked by the hold right now.
+func (r *FakeRelay) Held() int {
+	r.mu.Lock()
+	defer r.mu.Unlock()
+	return r.held
 }
 
 func (r *FakeRelay) isDown() bool {
@@ -182,6 +205,29 @@ func (s *fakeSendStream) Send(box *hashmailrpc.CipherBox) error {
 		r.log("not-found", k, nil)
 		r.mu.Unlock()
 		return status.Error(codes.NotFound, "stream not found")
+	}
+	if r.HoldKey != "" && k == r.HoldKey {
+		if r.unhold == nil {
+			r.unhold = make(chan struct{})
+		}
+		ch := r.unhold
+		r.held++
+		r.log("send-held", k, nil)
+		r.mu.Unlock()
+		select {
+		case <-s.ctx.Done():
+			r.mu.Lock()
+			r.held--
+			r.mu.Unlock()
+			return status.FromContextError(s.ctx.Err()).Err()
+		case <-ch:
+		}
+		r.mu.Lock()
+		r.held--
+		if _, still := r.boxes[k]; !still {
+			r.mu.Unlock()
+			return status.Error(codes.NotFound, "stream not found")
+		}
 	}
 	f := r.fault("send", k)
 	if f.StreamErr {
